@@ -45,6 +45,12 @@ CHECK = {
                         "harness": {"server": ["zz_verif_srv_*.go", "zz_verif_c05_test.go", "zz_verif_c05_limiter_test.go", "zz_verif_c05_casesize_test.go",
                                                "zz_verif_c06_test.go", "zz_verif_cslab_test.go"], "middleware": ["zz_verif_export.go"]},
                         "stub_tests": ["server"], "shards": 16, "budget_s": {"quick": 60, "thorough": 400}},
+        # shared upstream lookups: a caller that joins another caller's lookup is handed a reply with ITS id and question
+        # (the C11 lookup exploration: every event order on the real groupLookup/singleflight/lookup path; every caller spells
+        # the name in its own letter case)
+        "sharedlookup": {"pkg": "middleware/resolver", "run": "TestVerifC10Lookup",
+                         "harness": {"middleware/resolver": ["zz_verif_c11lk_*_test.go"]}, "gomaxprocs": 2,
+                         "budget_s": {"quick": 40, "thorough": 300}},
         "tcp": {"pkg": "server", "run": "TestVerifC10TCP", "harness": _SRV_H,
                 "rewrite": _SRV_RW, "gomaxprocs": 2,
                 "budget_s": {"quick": 70, "thorough": 330}},
